@@ -120,6 +120,8 @@ def check(chk: Check) -> None:
                 for fs in (1, 3, 6):
                     jobs.append(dict(name=name + " [caller-supplied flow]", integ=integ, kind=kind, physical=physical, frame_size=fs, logical="explicit-flow", explicit_flow=True))
     for res in pmap(run, jobs):
+        if res is None:
+            continue
         chk.functions.update(res["funcs"])
         jb = res["job"]
         inst = f"{jb['name']} physical={jb['physical']} logical={jb['logical']} frame_size={jb['frame_size']}"
@@ -159,6 +161,8 @@ def check(chk: Check) -> None:
                             continue
                         ljobs.append(dict(physical=physical, complete=j, cut="torn", integ=integ, parser=parser, source=src))
     for res in pmap(c10.run, ljobs):
+        if res is None:
+            continue
         jb = res["job"]
         inst = f"{jb['integ']}.{jb['parser']} physical={jb['physical']} {jb.get('source', 'seekable')} source stalls after frame {jb['complete']}"
         for p in res["paths"]:
